@@ -41,6 +41,10 @@ def run(ctx):
                       "commit/store: real configuration store writes and the real proposal reconciler's commit step (direct Reconcile) vs store_write/commit_merge "
                       "(membership in the outcome set over Go map orders); adc/prune/wild: pure differential cases incl. malformed paths and regexp metacharacters. "
                       "distinct = distinct inputs (all exercise path comparison or map merging)")
+    # the shared protocol run: validate/commit steps of the real proposal reconciler against Proto2 (applyChangeToConfig,
+    # commit_merge, store write over multi-transaction histories incl. nested tombstones) and the c03_ end-state monitors
+    from props import p2common
+    p2common.p2_extra(ctx, ["c03_"], "Model/Proto2.v + P2Pure.v <-> reconcileValidate/reconcileCommit merges (steps exercising C03)")
     ctx.trusted = vlib.STD_TRUSTED + [
         "modelled (repaired code): IsPathBelow, computeChange, AddDeleteChildren (with its in-place mutation), applyChangeToConfig, the candidate/rollback construction of "
         "reconcileValidate, reconcileCommit's merge, reconcileApply's updated values, PrunePathValues/PrunePathMap, configuration store()/clearDeletedAncestors/populate (separate committed and applied Atomix maps, inline copies in the entry), MatchWildcardRegexp, getUpdate's filter. Not modelled here: the textual path codec (C16; the theorems assume well-formed "
